@@ -3,12 +3,17 @@
 // catalogue of boundary tokens, deleted, and duplicated. The texts are deterministic (the seed only
 // chooses the subsample of the non-mandatory triples and the variant: alone / followed by another
 // definition / cut right after the changed token).
+//
+// Second part (stream c12b "bytesweep-<kind>", emitByteSweep below): every byte value and a list of
+// multi-byte sequences inserted into every string literal and every identifier of the same templates.
 package main
 
 import (
 	"encoding/hex"
 	"fmt"
 	"strings"
+	"unicode"
+	"unicode/utf8"
 )
 
 // a template: tokens separated by single spaces; "\n" and "\n\t" are layout tokens (never changed); a
@@ -22,6 +27,10 @@ type tokTemplate struct {
 
 const attrContext = "BA_DEF_ \"a\" INT 0 10;\nBA_DEF_ BO_ \"h\" HEX 0 10;\nBA_DEF_ SG_ \"f\" FLOAT 0 1.5;\n" +
 	"BA_DEF_ BU_ \"s\" STRING;\nBA_DEF_ EV_ \"e\" ENUM \"x\",\"y\",\"z\";\n"
+
+// attribute definitions whose names nearly collide (capitalization, one character more) and have
+// different value types; the templates that follow it refer to a name that matches none of them exactly
+const collideContext = "BA_DEF_ \"Ab\" INT 0 10;\nBA_DEF_ \"aB\" STRING;\nBA_DEF_ BO_ \"ab\" ENUM \"x\",\"y\";\nBA_DEF_ \"Abc\" FLOAT 0 1;\n"
 
 func tpl(kind, prefix, s string) tokTemplate {
 	var toks []string
@@ -73,6 +82,9 @@ var tokTemplates = []tokTemplate{
 	tpl("attrdefault", attrContext, `BA_DEF_DEF_ "e" !"y" ;`),
 	tpl("attrdefault", attrContext, `BA_DEF_DEF_ "e" !1 ;`),
 	tpl("attrdefault", "", `BA_DEF_DEF_ "nodef" !1 ;`),
+	tpl("attrdefault", collideContext, `BA_DEF_DEF_ "AB" !5 ;`),
+	tpl("attrdefault", collideContext, `BA_DEF_DEF_ "AB" !"v" ;`),
+	tpl("attrdefault", collideContext, `BA_DEF_DEF_ "aB" !"v" ;`),
 	tpl("attrvalue", attrContext, `BA_ "a" !5 ;`),
 	tpl("attrvalue", attrContext, `BA_ "h" BO_ !1 !7 ;`),
 	tpl("attrvalue", attrContext, `BA_ "f" SG_ !1 S !0.5 ;`),
@@ -80,6 +92,9 @@ var tokTemplates = []tokTemplate{
 	tpl("attrvalue", attrContext, `BA_ "e" EV_ E !1 ;`),
 	tpl("attrvalue", attrContext, `BA_ "e" EV_ E !"z" ;`),
 	tpl("attrvalue", "", `BA_ "nodef" !1 ;`),
+	tpl("attrvalue", collideContext, `BA_ "AB" !5 ;`),
+	tpl("attrvalue", collideContext, `BA_ "AB" BO_ !1 !"x" ;`),
+	tpl("attrvalue", collideContext, `BA_ "ab" BO_ !1 !1 ;`),
 	tpl("valuedescriptions", "", `VAL_ !1 S 1 "a" 0 "b" ;`),
 	tpl("valuedescriptions", "", `VAL_ E 1 "a" ;`),
 	tpl("unknown", "", `FOO_ 1 a : ;`),
@@ -136,6 +151,10 @@ func stringBoundaryTokens() []string {
 	return c
 }
 
+// the string literals of boundaryTokens that lack their closing quote: at a string position they are
+// emitted on every run, followed by the rest of the definition and as the very end of the input
+var unterminated = map[string]bool{`"`: true, `"a`: true, `"\`: true, `"\"`: true}
+
 func renderToks(toks []string) string {
 	var b strings.Builder
 	for i, t := range toks {
@@ -183,6 +202,8 @@ func emitTokenMutations(seed int64, n int, all bool, stride int) int {
 				muts = append(muts, m[:j+1:j+1], m[j+1:])
 				if isString && bi < len(strCat) {
 					names = append(names, "s:"+hex.EncodeToString([]byte(b))) // always emitted
+				} else if isString && unterminated[b] {
+					names = append(names, "u:"+hex.EncodeToString([]byte(b))) // always emitted, alone and at the end of the input
 				} else {
 					names = append(names, "r:"+hex.EncodeToString([]byte(b)))
 				}
@@ -196,7 +217,7 @@ func emitTokenMutations(seed int64, n int, all bool, stride int) int {
 			for k, name := range names {
 				ctr = ctr*6364136223846793005 + 1442695040888963407
 				h := int((ctr >> 33) % 1000003)
-				if !all && !mand[j] && h%stride != 0 && !strings.HasPrefix(name, "s:") {
+				if !all && !mand[j] && h%stride != 0 && !strings.HasPrefix(name, "s:") && !strings.HasPrefix(name, "u:") {
 					continue
 				}
 				head, tail := muts[2*k], muts[2*k+1]
@@ -206,6 +227,8 @@ func emitTokenMutations(seed int64, n int, all bool, stride int) int {
 					variants = []int{0, 1, 2}
 				} else if mand[j] && (tp.kind == "signal" || tp.kind == "message-sg") {
 					variants = []int{0, 2} // multiplexer position: also at the end of the input
+				} else if strings.HasPrefix(name, "u:") {
+					variants = []int{0, 2} // with the rest of the definition (no later quote unless it has one) and as the last bytes
 				}
 				for _, v := range variants {
 					var text string
@@ -220,6 +243,190 @@ func emitTokenMutations(seed int64, n int, all bool, stride int) int {
 					extra := fmt.Sprintf(" tokmut-%s tpl=%d pos=%d op=%s variant=%d", tp.kind, ti, j, name, v)
 					emitCase("c12b", n, []byte(text), extra, nil, false)
 					n++
+				}
+			}
+		}
+	}
+	return n
+}
+
+// ---- byte sweep (C12, stream c12b "bytesweep-<kind>")
+//
+// At every position of the templates that holds a string literal and at every position that holds an
+// identifier (keywords included: they are scanned as identifiers) one more item is INSERTED into the
+// token: at its start, at its end and in its middle ("a<b>z" / A<b>Z; a token of fewer than two
+// characters gets a trailing z first so that the middle is a place of its own). The items are each of
+// the 256 byte values and a list of multi-byte sequences: letters, digits, marks, symbols, separators,
+// format and private-use characters and non-characters of several Unicode blocks at the 2/3/4-byte
+// encoding boundaries, and ill-formed sequences (overlong, surrogate, beyond U+10FFFF, truncated, lone
+// continuation bytes). The quoted attribute names (BA_DEF_: Parser.stringIdentifier -> Identifier.Validate
+// -> identifiers.IsAlphaChar/IsNumChar on every rune of an arbitrary string; BA_DEF_DEF_ / BA_: the name
+// looked up among the earlier BA_DEF_) are where string content reaches the identifier rules.
+
+type sweepItem struct {
+	b   string
+	cls string // valid rune >= 128: its class as Go's unicode tables have it (L letter, D digit, O other), else ""
+	r   rune
+}
+
+func sweepItems() []sweepItem {
+	var out []sweepItem
+	for b := 0; b < 256; b++ {
+		out = append(out, sweepItem{b: string([]byte{byte(b)})})
+	}
+	for _, r := range []rune{
+		0x80, 0xa0, 0xaa, 0xb2, 0xb5, 0xd7, 0xe9, 0xff, // Latin-1: control, NBSP, ordinal (Lo), superscript two (No), micro, times, e acute
+		0x100, 0x2b0, 0x301, 0x3a9, 0x416, 0x5d0, 0x661, 0x7ff, // modifier letter, combining mark, Greek, Cyrillic, Hebrew, Arabic-Indic digit, last 2-byte rune
+		0x800, 0x969, 0xe01, 0xe51, 0x1e9e, 0x200b, 0x2028, 0x20ac, 0x2160, 0x2603, // first 3-byte rune, Devanagari/Thai digits, ZWSP, LS, euro, roman numeral (Nl), snowman
+		0x3007, 0x3042, 0x4e2d, 0xac00, 0xd7ff, 0xe000, 0xfb01, 0xfeff, 0xff10, 0xff21, 0xfffd, 0xffff, // CJK, Hangul, below/above the surrogates, ligature, BOM, fullwidth digit/letter, U+FFFD itself, non-character
+		0x10000, 0x104a0, 0x1d400, 0x1d7d8, 0x1f600, 0x20000, 0xe0001, 0x10ffff, // first 4-byte rune, Osmanya digit, mathematical letter/digit, emoji, CJK ext. B, tag, last rune
+	} {
+		cls := "O"
+		if unicode.IsLetter(r) {
+			cls = "L"
+		} else if unicode.IsDigit(r) {
+			cls = "D"
+		}
+		buf := make([]byte, utf8.UTFMax)
+		out = append(out, sweepItem{b: string(buf[:utf8.EncodeRune(buf, r)]), cls: cls, r: r})
+	}
+	for _, s := range []string{
+		"\xc0\x80", "\xc1\xbf", "\xe0\x80\x80", "\xe0\x9f\xbf", "\xed\xa0\x80", "\xed\xbf\xbf", "\xf0\x80\x80\x80", "\xf0\x8f\xbf\xbf",
+		"\xf4\x90\x80\x80", "\xf5\x80\x80\x80", "\xf8\x88\x80\x80\x80", "\xe2\x82", "\xf0\x9f\x98", "\xc3\x28", "\xe2\x28\xa1", "\x80\x80", "\xc3\xc3\xa9",
+	} {
+		out = append(out, sweepItem{b: s})
+	}
+	return out
+}
+
+func isIdentToken(t string) bool {
+	for i := 0; i < len(t); i++ {
+		c := t[i]
+		if !(c == '_' || 'A' <= c && c <= 'Z' || 'a' <= c && c <= 'z' || i > 0 && '0' <= c && c <= '9') {
+			return false
+		}
+	}
+	return len(t) > 0
+}
+
+// the token with [b] inserted at its start (0), in its middle (1), at its end (2)
+func sweepToken(tok string, isString bool, place int, b string) string {
+	inner := tok
+	if isString {
+		inner = tok[1 : len(tok)-1]
+	}
+	var t string
+	switch place {
+	case 0:
+		t = b + inner
+	case 2:
+		t = inner + b
+	default:
+		switch len(inner) {
+		case 0:
+			inner = "az"
+		case 1:
+			inner += "z"
+		}
+		h := len(inner) / 2
+		t = inner[:h] + b + inner[h:]
+	}
+	if isString {
+		return `"` + t + `"`
+	}
+	return t
+}
+
+// emitByteSweep prints the cases; a position is mandatory (every item in every place on every run) when
+// it is a quoted attribute name (class strid) or the first other string position / the first identifier
+// position after the keyword of its definition kind; of the other positions one case in [stride] is
+// taken (chosen by the seed) unless [all]. Variants as for the token mutations: one chosen by the seed;
+// [all]: all three at the mandatory positions. Returns the next case number.
+func emitByteSweep(seed int64, n int, all bool, stride int) int {
+	items := sweepItems()
+	ctr := uint64(seed) ^ 0x9e3779b97f4a7c15
+	type key struct{ ti, j int }
+	class := map[key]string{}
+	mand := map[key]bool{}
+	firstStr, firstID, firstKw := map[string]bool{}, map[string]bool{}, map[string]key{}
+	clean := make([][]string, len(tokTemplates))
+	for ti, tp := range tokTemplates {
+		clean[ti] = make([]string, len(tp.toks))
+		strid := tp.kind == "attribute" || tp.kind == "attrdefault" || tp.kind == "attrvalue"
+		for j, t := range tp.toks {
+			if strings.HasPrefix(t, "!") && len(t) > 1 {
+				t = t[1:]
+			}
+			clean[ti][j] = t
+			k := key{ti, j}
+			switch {
+			case len(t) >= 2 && t[0] == '"' && t[len(t)-1] == '"':
+				if strid {
+					class[k], mand[k], strid = "strid", true, false
+				} else {
+					class[k] = "str"
+					if !firstStr[tp.kind] {
+						firstStr[tp.kind], mand[k] = true, true
+					}
+				}
+			case isIdentToken(t):
+				class[k] = "ident"
+				if j == 0 {
+					if _, ok := firstKw[tp.kind]; !ok {
+						firstKw[tp.kind] = k
+					}
+				} else if !firstID[tp.kind] {
+					firstID[tp.kind], mand[k] = true, true
+				}
+			}
+		}
+	}
+	for kind, k := range firstKw { // a kind without an identifier after its keyword: the keyword itself
+		if !firstID[kind] {
+			mand[k] = true
+		}
+	}
+	for ti, tp := range tokTemplates {
+		for j := range clean[ti] {
+			k := key{ti, j}
+			cl := class[k]
+			if cl == "" {
+				continue
+			}
+			for _, it := range items {
+				for place := 0; place < 3; place++ {
+					ctr = ctr*6364136223846793005 + 1442695040888963407
+					h := int((ctr >> 33) % 1000003)
+					if place == 2 && (clean[ti][j] == `""`) {
+						continue // same text as place 0
+					}
+					if !all && !mand[k] && h%stride != 0 {
+						continue
+					}
+					m := append([]string(nil), clean[ti]...)
+					m[j] = sweepToken(clean[ti][j], cl != "ident", place, it.b)
+					variants := []int{(h / stride) % 3}
+					if all && mand[k] {
+						variants = []int{0, 1, 2}
+					}
+					for _, v := range variants {
+						var text string
+						switch v {
+						case 0:
+							text = tp.prefix + renderToks(m) + "\n"
+						case 1:
+							text = tp.prefix + renderToks(m) + "\nVERSION \"z\"\n"
+						default: // the input ends right after the changed token
+							text = tp.prefix + renderToks(m[:j+1])
+						}
+						extra := fmt.Sprintf(" bytesweep-%s tpl=%d pos=%d class=%s place=%d ins=%s variant=%d", tp.kind, ti, j, cl, place,
+							hex.EncodeToString([]byte(it.b)), v)
+						if it.cls != "" {
+							extra += fmt.Sprintf(" rune=%x cls=%s", it.r, it.cls)
+						}
+						emitCase("c12b", n, []byte(text), extra, nil, false)
+						n++
+					}
 				}
 			}
 		}
